@@ -40,7 +40,9 @@ async def segment_fetcher(app: NDNApp, name: NonStrictName, timeout=4000, retry_
             future = app.express_interest(name, validator=validator, can_be_prefix=first,
                                           must_be_fresh=must_be_fresh, lifetime=timeout)
             try:
-                return await future
+                data_name, data_meta, data_content = await future
+                # The name list is shared with every other Interest the same Data packet completed: work on a copy
+                return list(data_name), data_meta, data_content
             except InterestTimeout:
                 trial_times += 1
                 if trial_times >= retry_times:
